@@ -38,6 +38,7 @@ type spec struct {
 	tos, ttl uint8
 	id       uint16
 	ipopt    bool
+	ipoptLen int // option bytes before padding: 4 (aligned), 3 or 7 (the header is padded to 32 bits)
 	// tcp / udp
 	sport, dport uint16
 	seq, ack     uint32
@@ -59,7 +60,14 @@ func (s *spec) ipLayer(next layers.IPProtocol) (gopacket.SerializableLayer, gopa
 	if s.v == 4 {
 		ip := &layers.IPv4{Version: 4, TOS: s.tos, Id: s.id, TTL: s.ttl, Protocol: next, SrcIP: s.src, DstIP: s.dst}
 		if s.ipopt {
-			ip.Options = []layers.IPv4Option{{OptionType: 148, OptionLength: 4, OptionData: []byte{0, 0}}}
+			switch s.ipoptLen {
+			case 3:
+				ip.Options = []layers.IPv4Option{{OptionType: 7, OptionLength: 3, OptionData: []byte{4}}}
+			case 7:
+				ip.Options = []layers.IPv4Option{{OptionType: 7, OptionLength: 7, OptionData: []byte{4, 10, 0, 0, 1}}}
+			default:
+				ip.Options = []layers.IPv4Option{{OptionType: 148, OptionLength: 4, OptionData: []byte{0, 0}}}
+			}
 		}
 		return ip, ip
 	}
@@ -113,6 +121,9 @@ func (s *spec) mk() ([]gopacket.SerializableLayer, int, error) {
 		off = 20
 		if s.ipopt {
 			off = 24
+			if s.ipoptLen == 7 {
+				off = 28
+			}
 		}
 	}
 	switch s.proto {
@@ -560,6 +571,7 @@ func (h *harness) emitSerV(s *spec, b []byte, off int, variant string) {
 // variants: the written checksum must not depend on what the Checksum field of the layer struct held before:
 //
 //	again     the same layer objects serialized a second time into a new buffer
+//	reused-dirty-buffer  fresh structs serialized into a buffer that held 0xEE bytes and was cleared
 //	decoded   the layers obtained by decoding the produced packet, re-serialized
 //	garbage:x fresh structs whose Checksum fields were pre-set (ffff, 1234, correct+1)
 func (h *harness) variants(s *spec, ls []gopacket.SerializableLayer, b []byte, off int) {
@@ -571,6 +583,23 @@ func (h *harness) variants(s *spec, ls []gopacket.SerializableLayer, b []byte, o
 		vh.Fatal("second serialization failed:", err, s.proto, s.v)
 	}
 	h.emitSerV(s, b2, off, "again")
+
+	// a buffer that held other data and was cleared: what the layer does not write explicitly (padding) is stale
+	dl2, _, err := s.mk()
+	if err != nil {
+		vh.Fatal("serialize failed:", err, s.proto, s.v)
+	}
+	dbuf := gopacket.NewSerializeBuffer()
+	if g, err := dbuf.PrependBytes(len(b) + 64); err == nil {
+		for i := range g {
+			g[i] = 0xEE
+		}
+	}
+	dbuf.Clear()
+	if err := gopacket.SerializeLayers(dbuf, serOpts, dl2...); err != nil {
+		vh.Fatal("serialization into a reused buffer failed:", err, s.proto, s.v)
+	}
+	h.emitSerV(s, append([]byte(nil), dbuf.Bytes()...), off, "reused-dirty-buffer")
 
 	pk := decode(b, s.v)
 	dl := pk.Layers()
@@ -675,6 +704,7 @@ func (h *harness) randSpec(proto string, v int, maxPay int) *spec {
 	if v == 6 {
 		s.id = s.id & 0xfff
 	}
+	s.ipoptLen = []int{4, 3, 7}[h.r.Intn(3)]
 	switch proto {
 	case "ip4":
 		s.ipopt = h.r.Intn(3) == 0
@@ -931,7 +961,7 @@ func main() {
 		}
 	}
 	st := vh.M{"events": tr.N, "fold": nfoldEv, "sum": nsumEv, "ser": h.nser, "verify": h.nverify, "pverify": h.npverify,
-		"ser_again": h.nservar["a"], "ser_decoded": h.nservar["d"], "ser_garbage": h.nservar["g"],
+		"ser_again": h.nservar["a"], "ser_reused_dirty_buffer": h.nservar["r"], "ser_decoded": h.nservar["d"], "ser_garbage": h.nservar["g"],
 		"flips": h.nflip, "flip_classes": h.flipClass, "distinct_stored_values": dist, "combos_with_stored_0000": zero,
 		"combos_with_stored_ffff": ones}
 	js, _ := json.Marshal(st)
